@@ -75,8 +75,17 @@ def events_of_path(path, vmap=None):
     """TLC graph path [(act,args,dst)] -> schedule of stimuli events."""
     evs = []
     vmap = vmap or {}
-    for act, args, _ in path:
+    skip = False
+    for k, (act, args, _) in enumerate(path):
         a = [tlaval.to_json(x) for x in args]
+        if skip:                     # the Fire that was merged into the packet before it
+            skip = False
+            continue
+        if act in ('RecvData', 'RecvDataX') and (len(a) < 3 or not a[2]) and k + 1 < len(path) and path[k + 1][0] == 'Fire' and (k + len(path)) % 2 == 0:
+            # every second "packet, then the timers of the same instant" is delivered as ONE loop iteration
+            evs.append({'a': 'RecvDataFire', 'd': a[0], 'env': a[1]})
+            skip = True
+            continue
         if act == 'Express':
             evs.append({'a': act, 't': a[0], 'defer': bool(a[1])})
         elif act == 'ExpressNow':
@@ -275,6 +284,13 @@ def random_schedule(rng, front, n_events, weights=None, junk=None, verdicts=None
                 d = {'name': name, 'id': rng.choice([1, 2]) + 10 * ALLN.index(name)}
                 # sometimes the caller cancels an Interest in the very instant the packet is processed
                 x = [rng.choice(unfinished) + 1] if unfinished and rng.random() < race_p else []
+                if due and not x and rng.random() < 0.6:
+                    # the packet and the due lifetime timers are served in one loop iteration (packet first)
+                    ev = {'a': 'RecvDataFire', 'd': d, 'env': rng.choice(envs)}
+                    run.apply(ev)
+                    ev['post'] = run.post()
+                    evs.extend(pitkit.split_data_fire(ev))
+                    continue
                 emit({'a': a, 'd': d, 'env': rng.choice(envs), 'x': x})
             elif a == 'RecvNack':
                 if entries and rng.random() < 0.8:
